@@ -262,7 +262,7 @@ func discharge(obls []*Oblig, dir string, timeoutSec int, all bool) {
 					if o.Search && searchTimeoutSec > 0 {
 						t = searchTimeoutSec
 					}
-					if !all && !o.Search && !o.Ctx.NoSlice {
+					if !o.Search && !o.Ctx.NoSlice {
 						// stage 0: the same goal without the nonlinear hypotheses
 						thin := o.Ctx.ScriptThin(p.NAssume, p.NegGoal)
 						if len(thin) < len(script) {
@@ -270,7 +270,8 @@ func discharge(obls []*Oblig, dir string, timeoutSec int, all bool) {
 							if t0 < 3 {
 								t0 = 3
 							}
-							r0 := solveScriptWith(allSolvers[:2], dir, fmt.Sprintf("%s_p%d_thin", o.Name, pi), thin, 1, t0, false)
+							// (thorough tier: both solvers must answer unsat)
+							r0 := solveScriptWith(allSolvers[:2], dir, fmt.Sprintf("%s_p%d_thin", o.Name, pi), thin, 1, t0, all)
 							if len(r0.Verdicts) == 1 && r0.Verdicts[0] == "unsat" {
 								results[pi] = r0
 								return
